@@ -11,10 +11,13 @@ def cases(tier, seed):
         nonlocal n; n += 1
         out.append({'id': 'c%d' % n, 'kind': 'eval', 'expr': expr, 'input': doc, 'tags': list(tags)})
     def doc():
-        return {'a': {'b': rng.randint(0, 3), 'c': [1, 2], 'n': None}, 'list': [{'k': rng.choice('xyz'), 'v': rng.randint(0, 9), 'o': {'p': 1}, 'drop': rng.choice(['k', 'v', 'o', ['k', 'v'], 'none', 5, ['o', 5]])} for _ in range(rng.randint(0, 4))],
+        return {'a': {'b': rng.randint(0, 3), 'c': [1, 2], 'n': None, 'patch': rng.choice([{'z': 0}, {'b': 7, 'q': 1}, {'c': [], 'n': 5}, {}])},
+                'patch': rng.choice([{'z': 9, 'w': 1}, {'k': 'p'}, {'v': 0, 'o': {}}, {'nn': [1], 'deep': {'x': 2}}, 5]), 'list': [{'k': rng.choice('xyz'), 'v': rng.randint(0, 9), 'o': {'p': 1}, 'drop': rng.choice(['k', 'v', 'o', ['k', 'v'], 'none', 5, ['o', 5]])} for _ in range(rng.randint(0, 4))],
                 'e': {}, 'ea': [], 's': 'str', 'nested': {'x': {'y': {'z': [{'w': 1}]}}}}
     pats = ['$', 'a', 'list', 'list[v > 3]', 'list.o', '**', '*', 'nested.x.y', 'nested.**', 'list[0]', '[list]', 'list[k = "x"]', 'nothing', 's', 'a.c', '$.a', 'list[-1]', 'nested.x.y.z', '{"new": 1}', 'a.{"b": b}']
-    upds = ['{"z": 1}', '{"b": b + 1}', '{"v": v * 2, "w": k}', '{}', '{"o": {"q": 2}}', '{"k": nothing}', '5', '"s"', '[1]', 'nothing', '{"b": $$.s}', '{"a": {"deep": [1, {"x": 2}]}}']
+    upds = ['{"z": 1}', '{"b": b + 1}', '{"v": v * 2, "w": k}', '{}', '{"o": {"q": 2}}', '{"k": nothing}', '5', '"s"', '[1]', 'nothing', '{"b": $$.s}', '{"a": {"deep": [1, {"x": 2}]}}',
+            # update objects taken as they are from the document (with null members) or built with nulls
+            '$$.patch', 'patch', '$$.a.patch', '{"z": null}', '$merge([$$.patch, {"m": 1}])', '$$.patch', 'patch', 'o', '$$.a']
     dels = [None, '"b"', '["v", "o"]', '"missing"', '[]', '5', '["k", 5]', 'nothing', '"c"', '["b", "c", "n"]',
             # deletes that depend on the object being transformed
             'drop', '[drop]', 'k', 'v > 3 ? "k" : "v"', 'v > 3 ? "k" : 5', 'v > 3 ? ["k", "o"]', '$string(k)', 'o.p = 1 ? "o"', '[k, "v"]', 'drop', 'drop']
@@ -30,11 +33,21 @@ def cases(tier, seed):
         elif form < 0.9: e = '( $t := %s; [$t($), $t(a), $] )' % t
         else: e = '%s(%s)' % (t, rng.choice(['$', 'a', 'list', '5', 'nothing', '"s"', '$, 1', '']))
         add(e, doc(), ('transform',))
-    for stage in ['$reverse()', '$sort(function($l,$r){$l.v > $r.v})', '$filter(function($i){$i.v > 1})', '$append([])', '$distinct()', 'function($x){$x}', '$shuffle()']:
+    for stage in ['$reverse()', '$sort(function($l,$r){$l.v > $r.v})', '$filter(function($i){$i.v >= 0})', '$append([])', '$distinct()', 'function($x){$x}', '$shuffle()']:
         for t in ['|$|{"seen": true}, ["k"]|', '|$|{"v": v * 10}|', '|o|{"q": 1}|']:
             add('list ~> %s ~> %s' % (stage, t), doc(), ('pipeline',) + (('unordered',) if 'shuffle' in stage else ()))
     for e in ['$ ~> $lookup("a") ~> |$|{"owner": "me"}|', 'a ~> function($x){$x} ~> |$|{"z": 1}, "b"|', '( $t := |$|{"n": 1}|; $r := list ~> $reverse() ~> $t; $map(list, $t) )', 'list ~> $append([]) ~> |$|{"n": 1}| ~> |$|5|']:
         add(e, doc(), ('pipeline',))
+    # update objects with null members, taken as they are from the document: every member of the update object is a
+    # member of the transformed object (checked inside JSONata, independent of the model; the port's treatment of
+    # JSON null in input documents is outside the model)
+    for i in range(60 if tier == 'quick' else 2000):
+        d = doc()
+        d['np'] = rng.choice([{'z': None}, {'b': None, 'q': 1}, {'k': None, 'v': None}, {'x': None, 'y': [None], 'w': {'u': None}}])
+        pat = rng.choice(['a', 'list', 'list[0]', 'nested.x', 'list.o', '$'])
+        upd = rng.choice(['$$.np', '$np'])
+        e = '( $np := $$.np; $r := $ ~> |%s|%s|; $t := $r.(%s); $count($keys($$.np)[$not($ in $keys($t[0]))]) = 0 or $not($exists($t)) )' % (pat, upd, pat)
+        add(e, d, ('null-update', 'law', 'novalue'))
     # the known witness and relatives
     for e in ['$ ~> |$$|{"z":1}|', '( $v := a; $ ~> |$v|{"z":1}| )', '$ ~> |$$.a|{"z":1}, "b"|', 'a ~> |$$.list|{"z":1}|']:
         add(e, doc(), ('outside-copy',))
